@@ -39,7 +39,8 @@ impl Property for C13 {
         let mut p = CfgProfile::general();
         p.native = Some(false);
         p.six_decimals = true;
-        p.fluct = false;
+        // 4 in 9 vAMMs have a per-block band: closes that would leave it turn partial (when the engine's partial ratio is below 100%)
+        p.fluct = true;
         let mut w = Weights::trading();
         w.close = 16;
         w.squeeze = 5;
